@@ -24,6 +24,7 @@ def run(model, rep, tier):
     r4_low_link_discipline(ctx, rep)
     r5_owns_representation(ctx, rep)
     r6_visit_dispatch(ctx, rep)
+    r7_edges_only_added(ctx, rep)
     rep.units['cfg'] = ctx.cfg_stats
 
 
@@ -1132,9 +1133,90 @@ def r5_owns_representation(ctx, rep, R='C20.R5'):
                           'passed in (no copy on some path): two nodes can end up sharing one set, and '
                           'later additions for one node change the edges of the other',
                           key='owned:' + norm(st), func=fi.qualname, where=ctx.where(fi, st))
+    if n == 0:
+        n = sum(1 for fi in cls.methods.values() for st in ast.walk(fi.node)
+                if isinstance(st, ast.AugAssign) and isinstance(st.target, ast.Subscript) and
+                alias_dotted_(fi.node, st.target.value) == 'self._neighbors')
     rep.floor(R, n, 1, 'stores into the neighbour map')
 
 
 def alias_dotted_(fnode, e):
     from .common import alias_dotted
     return alias_dotted(fnode, e)
+
+
+# ---------------------------------------------------------------------------------------------
+# R7 -- the graph only grows: a recorded edge is never dropped
+
+def r7_edges_only_added(ctx, rep, R='C20.R7'):
+    rep.rule(R, 'the graph the components are computed for is the graph that was built: once an edge is '
+             'recorded it stays -- the neighbour map is bound only in __init__, an entry is assigned '
+             '(map[k] = ...) only where k is known to have no entry yet, everything else adds to the '
+             'existing set (|=, .update / .add on the set); no pop / del / clear, and no bulk '
+             'map.update(...) that would overwrite the sets of nodes that are already known')
+    from .common import alias_dotted, guard_literals, local_assignments
+    cls = ctx.model.cls('digraph.DiGraph')
+    n = 0
+    for fi in cls.methods.values():
+        def is_map(e):
+            return (alias_dotted(fi.node, e) or dotted(e) or '') == 'self._neighbors'
+        for st in ast.walk(fi.node):
+            what = None
+            if isinstance(st, ast.Assign):
+                for t in st.targets:
+                    if is_map(t) and fi.name != '__init__':
+                        what = 'the neighbour map is re-bound'
+                    if isinstance(t, ast.Subscript) and is_map(t.value):
+                        # the key must be known to be absent here
+                        key = norm(t.slice)
+                        lits = guard_literals(ctx, fi, st)
+                        la = local_assignments(fi.node)
+                        absent = False
+                        for e, pos in lits:
+                            ee = e
+                            # nbs is None, with nbs = self._neighbors.get(k)
+                            if isinstance(ee, ast.Compare) and len(ee.ops) == 1 and isinstance(ee.left, ast.Name) \
+                                    and isinstance(ee.comparators[0], ast.Constant) and ee.comparators[0].value is None:
+                                from .common import reaching_defs, node_of
+                                g_ = ctx.cfg(fi)
+                                nid_ = node_of(g_, st)
+                                vals = [v for v in (reaching_defs(g_, nid_, ee.left.id) if nid_ is not None else [])]
+                                if len(vals) == 1 and isinstance(vals[0], ast.expr):
+                                    import copy
+                                    ee = copy.copy(ee)
+                                    ee.left = vals[0]
+                            if isinstance(ee, ast.Compare) and len(ee.ops) == 1 and \
+                                    isinstance(ee.left, ast.Call) and isinstance(ee.left.func, ast.Attribute) and \
+                                    ee.left.func.attr == 'get' and is_map(ee.left.func.value) and \
+                                    norm(ee.left.args[0]) == key and len(ee.left.args) == 1 and \
+                                    isinstance(ee.comparators[0], ast.Constant) and ee.comparators[0].value is None:
+                                if (isinstance(ee.ops[0], (ast.Is, ast.Eq)) and pos) or \
+                                        (isinstance(ee.ops[0], (ast.IsNot, ast.NotEq)) and not pos):
+                                    absent = True
+                            if isinstance(ee, ast.Compare) and len(ee.ops) == 1 and norm(ee.left) == key and \
+                                    is_map(ee.comparators[0]):
+                                if (isinstance(ee.ops[0], ast.NotIn) and pos) or (isinstance(ee.ops[0], ast.In) and not pos):
+                                    absent = True
+                        n += 1
+                        if not absent and fi.name != '__init__':
+                            what = 'the entry of %s is assigned although the node may already have neighbours' % key
+            elif isinstance(st, ast.Delete):
+                for t in st.targets:
+                    if (isinstance(t, ast.Subscript) and is_map(t.value)) or is_map(t):
+                        what = 'entries are deleted (%s)' % norm(st)
+            elif isinstance(st, ast.Call) and isinstance(st.func, ast.Attribute) and is_map(st.func.value) and \
+                    st.func.attr in ('pop', 'popitem', 'clear', 'update', '__delitem__', '__setitem__'):
+                n += 1
+                what = 'map.%s(...) %s' % (st.func.attr, 'overwrites the sets of known nodes' if
+                                           st.func.attr in ('update', '__setitem__') else 'removes entries')
+            elif isinstance(st, ast.AugAssign) and isinstance(st.target, ast.Subscript) and is_map(st.target.value):
+                n += 1
+                if not isinstance(st.op, ast.BitOr):
+                    what = 'the neighbour set is changed with %s' % type(st.op).__name__
+            if what:
+                rep.check(False, R, '%s: %s' % (fi.qualname, norm(st)[:70]),
+                          '%s in %s: edges recorded earlier are dropped, and the components are those '
+                          'of another graph' % (what, fi.qualname), key='edges-kept:%s:%s' % (fi.qualname, norm(st)[:50]),
+                          func=fi.qualname, where=ctx.where(fi, st))
+    rep.ok(R, 'every write to the neighbour map of DiGraph adds (%d sites)' % n)
+    rep.floor(R, n, 1, 'writes to the neighbour map')
